@@ -98,7 +98,22 @@ func (c07) Run(c *wk.Case) {
 	}
 	mode := "direct"
 	prog := call
-	switch k := (c.Index / int64(len(entries))) % 5; {
+	switch k := (c.Index / int64(len(entries))) % 6; {
+	case k == 5:
+		// the result is looked at more than once (a lazy list is traversed again from its start each time)
+		mode = "retraversal"
+		r := ref.Id("r0")
+		guard := func(e *ref.Node) *ref.Node { return ref.Try(e, ref.Str("failed")) }
+		var uses []*ref.Node
+		switch c.Rng.IntN(3) {
+		case 0:
+			uses = []*ref.Node{guard(ref.Method(r, "string")), guard(ref.Method(r, "string"))}
+		case 1:
+			uses = []*ref.Node{guard(ref.Method(ref.Method(ref.ListN(ref.Int(1), ref.Int(2)), "cross", r, ref.Clo([]string{"ca", "cb"}, ref.Id("cb"))), "string")), guard(ref.Method(r, "string"))}
+		default:
+			uses = []*ref.Node{guard(ref.Method(ref.Method(r, "top", ref.Int(2)), "string")), guard(ref.Method(r, "size")), guard(ref.Method(r, "string"))}
+		}
+		prog = ref.Let("r0", call, ref.ListN(uses...))
 	case k == 3:
 		mode = "misuse"
 		prog = g.Misuse(call)
